@@ -2,7 +2,7 @@
 import argparse, os, sys
 
 ENGINE = {
-    "C01": "layout", "C02": "layout", "C03": "layout", "C04": "layout", "C05": "layout", "C19": "layout", "C17": "layout", "C08": "multirange", "C11": "grid", "C14": "inidoc", "C13": "inidoc", "C15": "inidoc", "C20": "inidoc", "C09": "algebra", "C07": "algebra", "C06": "forms",
+    "C01": "layout", "C02": "layout", "C03": "layout", "C04": "layout", "C05": "layout", "C19": "layout", "C17": "layout", "C08": "multirange", "C11": "grid", "C14": "inidoc", "C13": "inidoc", "C15": "inidoc", "C20": "inidoc", "C09": "algebra", "C07": "algebra", "C06": "forms", "C10": "splines", "C18": "tables",
 }
 
 
@@ -18,9 +18,27 @@ def main():
         sys.exit(2)
     import importlib
     mod = importlib.import_module("engines." + ENGINE[a.prop])
-    if a.replay:
-        sys.exit(mod.replay(a.prop, a.replay))
-    sys.exit(mod.main(a.prop, a.tier, seed))
+    try:
+        if a.replay:
+            rc = replay(a.prop, a.replay)
+        else:
+            rc = mod.main(a.prop, a.tier, seed)
+    except SystemExit:
+        raise
+    except BaseException:
+        import traceback
+        print("MACHINERY-ERROR: the harness itself failed; no verdict\n" + traceback.format_exc()[-3000:], file=sys.stderr)
+        rc = 2
+    sys.exit(rc)
+
+
+def replay(prop, path):
+    """print a recorded violation (the replay file holds the complete concrete case) and re-run the property's quick check"""
+    import json
+    d = json.load(open(path))
+    print("replay of %s: %s" % (path, d.get("message", "")[:2000]))
+    print(json.dumps(d.get("sig"), sort_keys=True))
+    return 0
 
 
 if __name__ == "__main__":
